@@ -2,7 +2,9 @@
 
 Input : [timeout, [stop instant, ...], broken, suppress, store, nObs, setUp, body, tearDown] (+ ['real'] = on the real reactor)
   stage      = [[cleanup stage, ...], [side, ...], beh]    (the cleanups it registers at its start, in order; any depth)
-  side       = ['junk', d] | 'logerr' | 'dropfailed' | 'flush' | 'expect'
+  side       = ['junk', d] | 'logerr' | ['logerr', route] | 'dropfailed' | 'flush' | 'expect'
+               route = err (twisted.python.log.err, as plain 'logerr') | failure (twisted.logger.Logger().failure) | error (Logger().error with
+               log_failure=) | reactor (the call by which the reactor logs an exception raised by a delayed call)
   beh        = 'ret' | ['ret', v] | ['same', k] | ['raise', k] | ['fire', d] | ['fire', d, v] | ['faild', d, k] | 'never'
                ['same', k]: the stage returns the very Deferred object that the k-th stage started in this run returned
                v = a value token of harness/props/c15.py (objects with a hostile ==, falsy values; no v = None): what the stage returns /
@@ -72,6 +74,17 @@ class C14(Prop):
             'exceptions, and scenarios on the REAL Twisted reactor (feature reactor:real; five of them also in quick). non-trivial = at '
             'least one stage returns a Deferred or has a side effect; distinct = distinct input S-expression')
     assumptions = [
+        'translator tie: harness/pyasync2lean.py re-reads _run_deferred (callback chain and nested functions), _run_cleanups, _run_user, '
+        '_log_user_exception, _blocking_run_deferred, _run_core, the broken-Twisted iteration count, flush_logged_errors, assert_fails_with '
+        'and _ErrorObserver._setUp as data; TTV.AsyncSkel resolves the chain into a decision tree and runs it over the model\'s primitives, '
+        'C14_src_* prove the model\'s chain and accounting are that interpretation (addCallback vs addBoth is in the data but not in the '
+        'interpretation: the Deferreds of _run_user never fail); the Spinner side is C15\'s tie (C14_src_iterations uses its iteration '
+        'count); trusted: the recognisers and that the interpreters read the forms as Python / Twisted do',
+        'the route by which an error reaches Twisted\'s log is part of the side-effect alphabet: twisted.python.log.err, '
+        'twisted.logger.Logger().failure, Logger().error with log_failure=, and the reactor\'s own call for an exception raised by a delayed '
+        'call (emitted synchronously by the stage with the reactor\'s namespace and format; a delayed call that actually raises is not '
+        'generated: harness/vreactor.py has an exception barrier, it does not log); the model does not distinguish routes; every quick run '
+        'covers route x store_twisted_logs x suppress_twisted_logging x runner variant x stage',
         'cleanups are registered with positional and one keyword argument whose name cycles (by registration number + timeout) through '
         'f, fn, function, self, args, kwargs, x and none - names of parameters of the functions the arguments travel through '
         '(maybeDeferred(f, ...), _run_user(function, ...), addCleanup(fn, ...)); the cleanup checks that it receives exactly them; the '
@@ -146,6 +159,11 @@ class C14(Prop):
                      'potential-function termination argument, chain invariant through suspensions), executable spec shared with a '
                      'differential correspondence check against the real code on a virtual-time reactor',
     }
+
+    # ----- translator tie: the asynchronous runner's source as data (TTV/Generated/AsyncSkel.lean), the Spinner's (shared with C15)
+    def extract_tables(self, repo):
+        from harness import pyasync2lean, pyspinner2lean
+        return {'TTV/Generated/AsyncSkel.lean': pyasync2lean.generate(repo), 'TTV/Generated/SpinnerSkel.lean': pyspinner2lean.generate(repo)}
 
     # ----- implementation side
     def run_impl(self, inp):
@@ -281,6 +299,8 @@ class C14(Prop):
             for s in sides:
                 if s == 'logerr':
                     log.err(ZeroDivisionError('logged'))
+                elif s[0] == 'logerr':
+                    self._log_error(s[1])
                 elif s == 'dropfailed':
                     defer.fail(KeyError('dropped'))
                 elif s == 'flush':
@@ -363,6 +383,24 @@ class C14(Prop):
             trace.append(['reactor-errors'] + [type(e).__name__ for e in r.errors])
         return trace
 
+    def _log_error(self, route):
+        from twisted.python import log
+        from twisted.python.failure import Failure
+        from twisted.logger import Logger
+        try:
+            raise ZeroDivisionError('logged')
+        except ZeroDivisionError:
+            f = Failure()
+        if route == 'err':
+            log.err(f)
+        elif route == 'failure':
+            Logger(namespace='verif').failure('logged by the test', failure=f)
+        elif route == 'error':
+            Logger(namespace='verif').error('logged by the test', log_failure=f)
+        else:
+            # what ReactorBase.runUntilCurrent does with an exception raised by a delayed call
+            Logger(namespace='twisted.internet.base').failure('while handling timed call {timed}', failure=f, timed='<DelayedCall>')
+
     def _exc(self, case, k, name):
         import unittest
         if k == 'err':
@@ -401,8 +439,29 @@ class C14(Prop):
         ]
         return [inp + ['real'] for _, quick, inp in scen if quick or not quick_only]
 
+    ROUTES = ['err', 'failure', 'error', 'reactor']
+
+    def _logerr(self, rng):
+        return 'logerr' if rng.random() < 0.25 else ['logerr', rng.choice(self.ROUTES)]
+
     def corpus(self):
-        return Prop.corpus(self) + self.real_inputs(True) + self.value_grid()
+        return Prop.corpus(self) + self.real_inputs(True) + self.value_grid() + self.log_grid()
+
+    def log_grid(self):
+        """an error logged to Twisted and left unflushed fails the test whatever the route it takes into the log and whatever the
+        logging options: route x store_twisted_logs x suppress_twisted_logging x runner variant x stage; and flushed, it does not"""
+        st = self._st
+        out = []
+        for route in self.ROUTES:
+            for store in (False, True):
+                for suppress in (False, True):
+                    for broken in (False, True):
+                        for where in range(4):
+                            sd = [[['logerr', route]] if where == i else [] for i in range(4)]
+                            out.append([5, [], broken, suppress, store, 1, st('ret', sides=sd[0]),
+                                        st(['fire', 1], sides=sd[1], cleanups=[st('ret', sides=sd[3])]), st('ret', sides=sd[2])])
+                        out.append([5, [], broken, suppress, store, 0, st('ret'), st('ret', sides=[['logerr', route], 'flush']), st('ret')])
+        return out
 
     def value_grid(self):
         """every value token x (returned by | carried by the Deferred of) x (setUp | the test method | tearDown | a cleanup): the
@@ -428,11 +487,11 @@ class C14(Prop):
         for _ in range(rng.choice([0, 0, 0, 1] if clean else [0, 1, 1, 2])):
             k = rng.random()
             if clean and k < 0.85:
-                sides.extend([['junk', rng.choice([0, 0, 1])]] if k < 0.4 else ['logerr', 'flush'] if k < 0.7 else ['flush'])
+                sides.extend([['junk', rng.choice([0, 0, 1])]] if k < 0.4 else [self._logerr(rng), 'flush'] if k < 0.7 else ['flush'])
             elif k < 0.35:
                 sides.append(['junk', rng.choice([0, 1, 2, 3, T, T + 1, 9])])
             elif k < 0.55:
-                sides.append('logerr')
+                sides.append(self._logerr(rng))
             elif k < 0.7:
                 sides.append('dropfailed')
             elif k < 0.88:
@@ -513,9 +572,9 @@ class C14(Prop):
             flaw = rng.choice(['logerr', 'dropfailed', 'expect', 'junk', 'raise', 'faild', 'never', 'stop', 'logerr-flush-logerr',
                                'unclaimed', 'unclaimed'])
             if flaw in ('logerr', 'dropfailed', 'expect'):
-                st[1].append(flaw)
+                st[1].append(self._logerr(rng) if flaw == 'logerr' else flaw)
             elif flaw == 'logerr-flush-logerr':
-                st[1].extend(['logerr', 'flush', 'logerr'])
+                st[1].extend([self._logerr(rng), 'flush', self._logerr(rng)])
             elif flaw == 'junk':
                 st[1].append(['junk', rng.choice([total + 1, T, T + 1, 9])])
             elif flaw == 'raise':
@@ -569,7 +628,7 @@ class C14(Prop):
             if isinstance(s[2], list) and ((s[2][0] == 'ret') or (s[2][0] == 'fire' and len(s[2]) > 2)):
                 f.append('stage-value:' + (VALUE_NAMES[s[2][-1]] if s[2][-1] < len(VALUES) else 'int'))
             for side in s[1]:
-                f.append('side:' + (side if isinstance(side, str) else side[0]))
+                f.append('side:' + (side if isinstance(side, str) else side[0] + ('-' + side[1] if side[0] == 'logerr' else '')))
         if not isinstance(trace, list) or len(trace) < 10 or trace[0] == 'raised':
             return f + ['harness-raised']
         ev, stopped, raised, slog = trace[:4]
